@@ -11,7 +11,8 @@ CONSTANTS
   MaxStray = 0
   MaxFault = 1
   SubscribeFirst = TRUE
+  CloneCounts = TRUE
 SPECIFICATION Spec
-INVARIANTS NoLostReply OwnReply StreamPrefix SubRefcount Complete IoErrOnlyAfterFault
+INVARIANTS NoEarlyEnd NoLostReply OwnReply StreamPrefix SubRefcount Complete IoErrOnlyAfterFault
 VIEW View
 CHECK_DEADLOCK FALSE
